@@ -165,7 +165,9 @@ def is_facet_inwards(face, faces):
     orient /= np.linalg.norm(orient)  # for single facet numpy is fine
 
     # create a check point by displacing the facet center in facet orientation direction
-    eps = 1e-5  # unfortunately this must be quite a 'large' number :(
+    # unfortunately this must be quite a 'large' number :( - taken relative to the
+    # facet size, so that the result does not depend on the length unit
+    eps = 1e-5 * np.sqrt(np.linalg.norm(np.cross(v1, v2)))
     check_point = face.mean(axis=0) + orient * eps
 
     # find out if first point is inwards
@@ -280,7 +282,9 @@ def lines_end_in_trimesh(lines: np.ndarray, faces: np.ndarray) -> np.ndarray:
     # this then leads to bad projection computation
     # --> choose other reference points (faces[:,1]) in those specific cases
     ref_pts = np.tile(faces[:, 2], (len(lines), 1, 1))
-    eps = 1e-16  # note: norm square !
+    # characteristic length: all length tolerances below are relative to it
+    size = np.max(np.max(faces, axis=(0, 1)) - np.min(faces, axis=(0, 1)))
+    eps = 1e-16 * size**2  # note: norm square !
     coincide = v_norm2(l1 - ref_pts) < eps
     if np.any(coincide):
         ref_pts2 = np.tile(
@@ -311,7 +315,7 @@ def lines_end_in_trimesh(lines: np.ndarray, faces: np.ndarray) -> np.ndarray:
     area2 = v_dot_cross3d(b, c, d)
     area3 = v_dot_cross3d(c, a, d)
 
-    eps = 1e-12
+    eps = 1e-12 * size**3  # note: triple product !
     pass_through_boundary = (
         (np.abs(area1) < eps) | (np.abs(area2) < eps) | (np.abs(area3) < eps)
     )
@@ -449,7 +453,7 @@ def mask_inside_enclosing_box(points: np.ndarray, vertices: np.ndarray) -> np.nd
     xmax, ymax, zmax = np.max(vertices, axis=0)
     x, y, z = points.T
 
-    eps = 1e-12
+    eps = 1e-12 * max(xmax - xmin, ymax - ymin, zmax - zmin)
     mx = (x < xmax + eps) & (x > xmin - eps)
     my = (y < ymax + eps) & (y > ymin - eps)
     mz = (z < zmax + eps) & (z > zmin - eps)
@@ -482,8 +486,11 @@ def mask_inside_trimesh(points: np.ndarray, faces: np.ndarray) -> np.ndarray:
     pts_in_box = points[mask_inside]
 
     # create test-lines from outside to test-points
-    start_point_outside = np.min(vertices, axis=0) - np.array(
-        [12.0012345, 5.9923456, 6.9932109]
+    # the offset is proportional to the mesh size, so that the ray geometry (and with it
+    # every tolerance in lines_end_in_trimesh) does not depend on the length unit
+    size = np.max(np.max(vertices, axis=0) - np.min(vertices, axis=0))
+    start_point_outside = (
+        np.min(vertices, axis=0) - np.array([12.0012345, 5.9923456, 6.9932109]) * size
     )
     test_lines = np.tile(start_point_outside, (len(pts_in_box), 2, 1))
     test_lines[:, 1] = pts_in_box
